@@ -5,6 +5,12 @@
    (Base/ only). *)
 From PV Require Import Base.Prelude Spec.LuaLex Instances.HoldsC02.
 
+(* the reference token list of a text, without positions (C01 / C19 do not speak about positions) *)
+Definition unpos (t : stok) : stok :=
+  mk_stok (s_kind t) (s_raw t) (s_text t) (s_num t) (s_den t) (s_long t) 0 0.
+Definition spec_toks (src : list Z) : option (list stok) :=
+  match spec_lex src with Some ts => Some (map unpos ts) | None => None end.
+
 Definition kind_eqb (a b : skind) : bool := skind_code a =? skind_code b.
 Definition is_kind (k : skind) (t : stok) : bool := kind_eqb (s_kind t) k.
 
@@ -57,8 +63,8 @@ Definition line_groups (ts : list stok) : list Z := line_groups_from 0 ts.
 Definition spec_weight (t : stok) : Z :=
   match s_kind t with
   | SSpace | SNewline | SComment => 0
-  | SSymbol => if mem_bytes (s_raw t) free_symbols then 0 else 1
-  | SKeyword => if mem_bytes (s_raw t) free_keywords then 0 else 1
+  | SSymbol => if mem_bytes (s_text t) free_symbols then 0 else 1
+  | SKeyword => if mem_bytes (s_text t) free_keywords then 0 else 1
   | _ => 1
   end.
 Definition spec_count (ts : list stok) : Z := fold_left (fun a t => a + spec_weight t) ts 0.
@@ -76,10 +82,10 @@ Definition related (ss ss' : list stok) : bool :=
   views_ok ss ss' && renaming_ok ss ss' && groups_ok ss ss' && count_ok ss ss'.
 
 Definition holds_C01 (src out : list Z) : bool :=
-  match spec_lex src with
+  match spec_toks src with
   | None => true                           (* outside the defined dialect: no claim *)
   | Some ss =>
-    match spec_lex out with
+    match spec_toks out with
     | None => false                        (* the output is not a token sequence of the dialect *)
     | Some ss' => related ss ss'
     end
@@ -88,10 +94,10 @@ Definition holds_C01 (src out : list Z) : bool :=
 (* which clause fails (diagnosis only): 0 none, 1 output does not lex, 2 tokens differ (glued, lost,
    changed), 3 renaming not a consistent injection, 4 line groups, 5 token count *)
 Definition diag_C01 (src out : list Z) : Z :=
-  match spec_lex src with
+  match spec_toks src with
   | None => 0
   | Some ss =>
-    match spec_lex out with
+    match spec_toks out with
     | None => 1
     | Some ss' =>
       if negb (views_ok ss ss') then 2
@@ -111,14 +117,14 @@ Fixpoint first_view_diff (a b : list stok) (k : Z) : option (Z * option stok * o
   | [], y :: _ => Some (k, None, Some y)
   end.
 Definition where_C01 (src out : list Z) : option (Z * option stok * option stok) :=
-  match spec_lex src, spec_lex out with
+  match spec_toks src, spec_toks out with
   | Some ss, Some ss' => first_view_diff (sig_toks ss) (sig_toks ss') 0
   | _, _ => None
   end.
 
 (* with the token counts `stats` (Lua.get_token_count) reported for the input and the output *)
 Definition holds_C01_obs (src out : list Z) (count_in count_out : Z) : bool :=
-  holds_C01 src out && (match spec_lex src with None => true | Some _ => count_in =? count_out end).
+  holds_C01 src out && (match spec_toks src with None => true | Some _ => count_in =? count_out end).
 
 (* ---------- C19 *)
 (* the comments that precede any code *)
@@ -199,10 +205,10 @@ Definition sig_count_ok (ss ss' : list stok) : bool :=
   (length (sig_toks ss) =? length (sig_toks ss'))%nat.
 
 Definition holds_C19 (src out : list Z) : bool :=
-  match spec_lex src with
+  match spec_toks src with
   | None => true
   | Some ss =>
-    match spec_lex out with
+    match spec_toks out with
     | None => false
     | Some ss' => header_ok ss ss' && titles_ok ss ss' && sig_count_ok ss ss'
     end
@@ -211,10 +217,10 @@ Definition holds_C19 (src out : list Z) : bool :=
 (* 0 none, 1 output does not lex, 2 header not verbatim at the top / a later comment survives or
    appears, 3 title or byline, 4 number of code tokens *)
 Definition diag_C19 (src out : list Z) : Z :=
-  match spec_lex src with
+  match spec_toks src with
   | None => 0
   | Some ss =>
-    match spec_lex out with
+    match spec_toks out with
     | None => 1
     | Some ss' =>
       if negb (header_ok ss ss') then 2
@@ -228,7 +234,7 @@ Definition diag_C19 (src out : list Z) : Z :=
    (None = the method returned None) *)
 Definition holds_C19_obs (src out : list Z) (title byline : option (list Z)) : bool :=
   holds_C19 src out &&
-  match spec_lex src with
+  match spec_toks src with
   | None => true
   | Some ss =>
     match header_of ss with
